@@ -303,7 +303,7 @@ func (i *InsertStatement) Format(opts FormatOptions) string {
 	if i.Query != nil {
 		sb.WriteString(f.clauseSep())
 		if fq, ok := i.Query.(Formatter); ok {
-			sb.WriteString(fq.Format(opts))
+			sb.WriteString(fq.Format(nestedOpts(opts)))
 		} else {
 			sb.WriteString(stmtSQL(i.Query))
 		}
@@ -557,7 +557,7 @@ func (s *SetOperation) Format(opts FormatOptions) string {
 			return
 		}
 		if fs, ok := st.(Formatter); ok {
-			sb.WriteString(fs.Format(opts))
+			sb.WriteString(fs.Format(nestedOpts(opts)))
 		} else {
 			sb.WriteString(stmtSQL(st))
 		}
@@ -573,10 +573,6 @@ func (s *SetOperation) Format(opts FormatOptions) string {
 		sb.WriteString(f.kw(op))
 		sb.WriteString(f.clauseSep())
 		writeOperand(n.Right)
-		if opts.AddSemicolon && i > 0 {
-			// each nested set operation used to be formatted as a statement of its own
-			sb.WriteString(";")
-		}
 	}
 
 	if opts.AddSemicolon {
@@ -724,7 +720,7 @@ func (c *CreateViewStatement) Format(opts FormatOptions) string {
 	sb.WriteString(f.kw("AS"))
 	sb.WriteString(f.clauseSep())
 	if qs, ok := c.Query.(Formatter); ok {
-		sb.WriteString(qs.Format(opts))
+		sb.WriteString(qs.Format(nestedOpts(opts)))
 	} else {
 		sb.WriteString(stmtSQL(c.Query))
 	}
@@ -774,7 +770,7 @@ func (c *CreateMaterializedViewStatement) Format(opts FormatOptions) string {
 	sb.WriteString(f.kw("AS"))
 	sb.WriteString(f.clauseSep())
 	if qs, ok := c.Query.(Formatter); ok {
-		sb.WriteString(qs.Format(opts))
+		sb.WriteString(qs.Format(nestedOpts(opts)))
 	} else {
 		sb.WriteString(stmtSQL(c.Query))
 	}
@@ -908,9 +904,16 @@ func formatStmt(s Statement, opts FormatOptions) string {
 		return ""
 	}
 	if fs, ok := s.(Formatter); ok {
-		return fs.Format(opts)
+		return fs.Format(nestedOpts(opts))
 	}
 	return stmtSQL(s)
+}
+
+// nestedOpts are the options for a statement written inside another one: only the outermost
+// statement is terminated by a semicolon.
+func nestedOpts(opts FormatOptions) FormatOptions {
+	opts.AddSemicolon = false
+	return opts
 }
 
 // Format returns formatted SQL for a MergeStatement.
@@ -1156,7 +1159,7 @@ func formatWith(w *WithClause, f *formatter) string {
 		}
 		s += f.kw("AS") + " ("
 		if qs, ok := cte.Statement.(Formatter); ok {
-			s += qs.Format(f.opts)
+			s += qs.Format(nestedOpts(f.opts))
 		} else {
 			s += stmtSQL(cte.Statement)
 		}
